@@ -293,9 +293,9 @@ def rule_handover_semantics(ctx, ix):
     fn = ix.func(f"{TM}.__call__").node
     tm_mod = TM.rsplit(".", 1)[0]
     MG = {f.name: f.node for q, f in ix.funcs.items() if f.module == tm_mod and q == f"{tm_mod}.{f.name}"}
-    for text in ("y(i) = A(i,j) * x(j)", "a() = b(i) * c(i)", "A(i,j) = B(i,j) + C(j,i)"):
+    for text, target_first in (("y(i) = A(i,j) * x(j)", True), ("a() = b(i) * c(i)", True), ("A(i,j) = B(i,j) + C(j,i)", True), ("y(i) = A(i,j) * x(j)", False)):
         ctx.instance("C13.hand-over")
-        key = f"compile/_tensor_method.py:TensorMethod.__call__:{text}"
+        key = f"compile/_tensor_method.py:TensorMethod.__call__:{text}" + ("" if target_first else " [Problem lists the target last]")
         problems = []
         n_kernel_paths = 0
         work = [{}]
@@ -321,13 +321,19 @@ def rule_handover_semantics(ctx, ix):
 
                 return f
 
-            self_, tensors, _parts, _formats = call_scenario(text, 0, evaluate)
+            self_, tensors, _parts, _formats = call_scenario(text, 0, evaluate, target_first)
             def finalizer(*args, _ev=events, **kw):
                 _ev.append(("finalize", args))
                 return S.Obj("finalizer")
 
-            # every other function of the ownership module is an ownership operation on its first argument
-            others = {f.name: other_owner(f.name) for q, f in ix.funcs.items() if f.module == OWN and q == f"{OWN}.{f.name}"}
+            # the other functions of the ownership module are interpreted from source (a helper that wraps the kernel
+            # call, say); the take_ownership_* family and anything that releases are ownership operations
+            others = {f.name: f.node for q, f in ix.funcs.items() if f.module == OWN and q == f"{OWN}.{f.name}"}
+            for nm in list(others):
+                if nm.startswith("take_ownership") or "release" in nm or "free" in nm:
+                    others[nm] = other_owner(nm)
+            wmodel = World(ix)
+            others.update({"tensor_cdefs": wmodel.tensor_cdefs, "tensor_lib": wmodel.tensor_lib, "global_weakkeydict": wmodel.weak})
             G = {
                 **others,
                 **MG,
@@ -364,10 +370,12 @@ def rule_handover_semantics(ctx, ix):
             n_kernel_paths += 1
             if len(ks) > 1:
                 problems.append("the kernel runs more than once in one call")
-            out = events[ks[0]][1][0] if events[ks[0]][1] else None
             allocated = [e[1] for e in events[: ks[0]] if e[0] == "alloc"]
-            if not any(out is a for a in allocated):
-                problems.append("the kernel's output argument is not a structure allocated by this call")
+            kargs = list(events[ks[0]][1])
+            outs_ = [a for a in kargs if any(a is b for b in allocated)]
+            out = outs_[0] if len(outs_) == 1 else None
+            if out is None:
+                problems.append("the kernel is not given exactly one structure allocated by this call as its output")
             good = [i for i, e in owns if e[0] == "own" and e[1] is out and i > ks[0]]
             if len(good) == 0:
                 how = "raises" if outcome[0] == "raise" else "returns"
